@@ -5,6 +5,7 @@
 //!     whole underlying buffer is read back (run-length encoded in the output line).
 //! (b) `sq`/`rct`: the squeeze and RCT kernels (hook H7) on a grid embedded in a larger allocation
 //!     whose every other element is a canary.
+//! (d) `vec`: `as_vectored` (the f32 -> SIMD-vector view of a sub-grid) by its definition.
 //! (c) `bs`: the geometry of `Bitstream` (bytes left / bits buffered), read from its `Debug` output.
 //!
 //! Nothing printed depends on addresses. Panics are mapped to a site word derived from the source
@@ -805,6 +806,65 @@ fn bs_op(st: &mut St, w: &[&str]) -> Option<String> {
     Some(format!("{} {}", res, bs_state(st.bs.as_ref()?)))
 }
 
+/// (d) `vec <lanes 4|8> <off> <w> <h> <stride>`: `MutableSubgrid::<f32>::as_vectored` on a `w x h`
+/// sub-grid with the given row stride that starts `off` elements into a 32-byte aligned buffer.
+/// Answer `none`, or `some <vw> <vh> | <the whole buffer as integers>` after every vector cell
+/// `(vx, vy)` of the view was overwritten with the splat of `1000 * vy + vx + 1`.
+#[cfg(target_arch = "x86_64")]
+fn vec_op(w: &[&str]) -> Option<String> {
+    use jxl_grid::SimdVector;
+    let [lanes, off, gw, gh, stride] = w else { return None };
+    let lanes: usize = lanes.parse().ok()?;
+    let (off, gw, gh, stride): (usize, usize, usize, usize) =
+        (off.parse().ok()?, gw.parse().ok()?, gh.parse().ok()?, stride.parse().ok()?);
+    if gw == 0 || gh == 0 || stride < gw || gw > 256 || gh > 64 || stride > 512 || off > 64 {
+        return None;
+    }
+    let need = off + stride * (gh - 1) + gw;
+    // slack: a wrong stride must land inside the allocation
+    let total = need + 4 * gh + 64 + 8;
+    let mut store = vec![0f32; total + 8];
+    let mis = (store.as_ptr() as usize % 32) / 4;
+    let base = (8 - mis) % 8;
+    let buf = &mut store[base..base + total];
+    assert_eq!(buf.as_ptr() as usize % 32, 0);
+    let answer;
+    {
+        let mut g = MutableSubgrid::from_buf(&mut buf[off..off + need], gw, gh, stride);
+        fn fill<V: SimdVector>(g: &mut MutableSubgrid<'_, f32>) -> Option<(usize, usize)> {
+            let mut v = g.as_vectored::<V>()?;
+            let (vw, vh) = (v.width(), v.height());
+            for vy in 0..vh {
+                for vx in 0..vw {
+                    // SAFETY: `as_vectored` checked that the CPU has the vector type
+                    *v.get_mut(vx, vy) = unsafe { V::splat_f32((1000 * vy + vx + 1) as f32) };
+                }
+            }
+            Some((vw, vh))
+        }
+        answer = match lanes {
+            4 => fill::<std::arch::x86_64::__m128>(&mut g),
+            8 if std::arch::x86_64::__m256::available() => fill::<std::arch::x86_64::__m256>(&mut g),
+            8 => return Some("unsupported".into()),
+            _ => return None,
+        };
+    }
+    Some(match answer {
+        None => "none".into(),
+        Some((vw, vh)) => format!(
+            "some {} {} | {}",
+            vw,
+            vh,
+            buf.iter().map(|v| (*v as i64).to_string()).collect::<Vec<_>>().join(" ")
+        ),
+    })
+}
+
+#[cfg(not(target_arch = "x86_64"))]
+fn vec_op(_: &[&str]) -> Option<String> {
+    Some("unsupported".into())
+}
+
 fn main() {
     install_quiet_panic_hook();
     let st = St { buf: Vec::new(), cursor: 0, live: Vec::new(), step: 0, src: HashMap::new(), bs: None };
@@ -860,6 +920,7 @@ fn handle(st: &mut St, w: &[&str]) -> String {
             format!("ok | - | {}", snapshot(st))
         }),
         ["sq", rest @ ..] => sq_op(st, rest),
+        ["vec", rest @ ..] => vec_op(rest),
         ["rct", rest @ ..] => rct_op(st, rest),
         ["bs", rest @ ..] => bs_op(st, rest),
         _ => grid_op(st, w),
